@@ -14,6 +14,7 @@ A case is JSON: trees are nested lists mirroring the protocol of ``Handlers/C16.
 are hex strings of the item's bytes *in memory order* (so a swapped array holds big-endian items).
 """
 import contextlib
+import copy
 import io
 import os
 import shutil
@@ -789,6 +790,29 @@ def size_class(n):
   return str(n) if n <= 11 else '12..999' if n < 1000 else '1000' if n == 1000 else '1001..' if n <= 2000 else '2001..'
 
 
+def gen_ckpt_history(rng):
+  """A history of save_checkpoint calls in one directory: list of round numbers, None = the default
+  round_num. Patterns: increasing; the same round saved again with another state (default round, explicit
+  round); a run restarted from an older checkpoint that redoes rounds still on disk; arbitrary order."""
+  pat = rng.choice(['inc', 'inc', 'default', 'same', 'restart', 'restart', 'random', 'mixed'])
+  if pat == 'inc':
+    return sorted(rng.sample(range(0, 2000), rng.choice([1, 2, 3, 4])))
+  if pat == 'default':
+    return [None] * rng.choice([2, 3]) + ([rng.randrange(1, 5)] if rng.random() < 0.5 else [])
+  if pat == 'same':
+    r = rng.choice([0, 1, 7, 1234])
+    return [r] * rng.choice([2, 3])
+  if pat == 'restart':
+    a = rng.randrange(0, 5)
+    n = rng.choice([2, 3, 4])
+    back = rng.randrange(1, n + 1)
+    first = list(range(a, a + n))
+    return first + list(range(a + n - back, a + n + rng.choice([0, 1, 2])))
+  if pat == 'random':
+    return [rng.choice([None, 0, 1, 2, 3, 5, 99999999]) for _ in range(rng.choice([2, 3, 4, 5]))]
+  return [3, None, 3, 2, None, 4][:rng.choice([3, 4, 5, 6])]
+
+
 ALGOS = ['fed_avg', 'fed_prox', 'mime', 'mime_lite', 'hyp_cluster', 'agnostic_fed_avg', 'apfl']
 OPTS = ['sgd', 'momentum', 'adam', 'adagrad', 'rmsprop', 'yogi']
 
@@ -799,7 +823,7 @@ class C16(core.Property):
           'dtype x byte order x layout x shape class, object-array element position, scalar boundaries, '
           'dict-key type, nesting depth 0..4, at most one unsupported leaf per tree); sqlite cases: '
           'add_many call sequences incl. ragged/empty/0-d/duplicate-id/str-feature failures, single calls of 1000..5000 tiny clients and many small calls, list/generator/iterator/tuple arguments, builder as context manager or plain object; '
-          'ckpt/state cases: every algorithm x server optimizer, and generated trees through pickle. '
+          'ckpt/state cases: every algorithm x server optimizer x a history of save_checkpoint calls (increasing, same round again incl. the default round, restarted runs, arbitrary order; keep 1..3), and generated trees through pickle; sqlite reads are repeated after the caller edited in place what it was handed. '
           'non-trivial = the case holds an array / numpy scalar / object array / unsupported leaf, or is a '
           'sqlite/ckpt case with at least one client/round; distinct by case digest')
   TRUSTED = ['msgpack wire codec (packb/unpackb inverse on msgpack values; the real bytes are re-read by an '
@@ -896,12 +920,16 @@ class C16(core.Property):
       yield {'kind': 'sqlite', 'big': sizes, 'arg': arg, 'ctx': cm}
     for _ in range(3 if tier == 'quick' else 25):
       yield gen_sqlite_many_small(rng, rng.choice([8, 20, 40]))
-    # 3. checkpoint / state round trips
+    # 3. checkpoint / state round trips (the first dozen use fixed history patterns, then random ones)
+    n_ckpt = 0
     for i, algo in enumerate(ALGOS):
       opts = OPTS if tier == 'thorough' else [OPTS[(i + rng.randrange(6)) % 6], 'sgd']
       for opt in opts:
+        n_ckpt += 1
+        fixed = [[None, None], [5, 5], [1, 2, 3, 2, 3, 4], [3, 1, 2], [None, 0, None, 1], [0, 1, 2]]
         yield {'kind': 'ckpt', 'algo': algo, 'opt': opt, 'shape': rng.choice([[3], [2, 2], []]),
-               'rounds': sorted(rng.sample(range(0, 2000), rng.choice([1, 2, 3]))), 'keep': rng.choice([1, 2, 3])}
+               'hist': fixed[n_ckpt % len(fixed)] if n_ckpt <= 2 * len(fixed) else gen_ckpt_history(rng),
+               'keep': 1 + (n_ckpt // len(fixed)) % 3 if n_ckpt <= 2 * len(fixed) else rng.choice([1, 2, 3])}
     # 4. random trees, sqlite tables, pickled trees
     n = 600 if tier == 'quick' else 9000
     for i in range(n):
@@ -951,10 +979,16 @@ class C16(core.Property):
             if t[0] == 'dict':
               yield {**case, 'calls': calls[:i] + [calls[i][:j] + [[calls[i][j][0], t]] + calls[i][j + 1:]] + calls[i + 1:]}
     elif k == 'ckpt':
-      if len(case['rounds']) > 1:
-        yield {**case, 'rounds': case['rounds'][-1:]}
+      hist = case['hist'] if 'hist' in case else list(case['rounds'])
+      for i in range(len(hist)):
+        if len(hist) > 1:
+          yield {**{kk: v for kk, v in case.items() if kk != 'rounds'}, 'hist': hist[:i] + hist[i + 1:]}
       if case['opt'] != 'sgd':
         yield {**case, 'opt': 'sgd'}
+      if case['algo'] != 'fed_avg':
+        yield {**case, 'algo': 'fed_avg'}
+      if case['keep'] > 1:
+        yield {**case, 'keep': case['keep'] - 1}
 
   # ---------------------------------------------------------------- evaluation
   def evaluate(self, case, ctx):
@@ -1124,6 +1158,11 @@ class C16(core.Property):
             problems.append('client_size of an absent id did not raise')
           except KeyError:
             pass
+          # what was handed out so far is judged as it was when handed out ...
+          per = copy.deepcopy(per)
+          via_clients = copy.deepcopy(via_clients)
+          # ... and then the caller edits what it is handed, and reads again
+          reread = self._reread_after_mutation(fd, path, ids, per, stored)
         finally:
           fd._connection.close()   # pylint: disable=protected-access
     finally:
@@ -1206,6 +1245,10 @@ class C16(core.Property):
     elif all(ex[0] == 'ok' for _, ex in per):
       problems.append(f'clients() raised {via_clients}')
 
+    if reread:
+      problems = reread + problems       # most specific first
+      key = key or 'C16/sqlite/reread-after-caller-mutation'
+
     # ---- correspondence with the model (only the calls that were executed)
     executed = calls[:len(log)]
     ans = ctx.drv.ask([line('c16.sqlite', 'repaired',
@@ -1230,6 +1273,94 @@ class C16(core.Property):
                    key=key or ('C16/sqlite/other' if problems else None),
                    nontrivial=len(stored) > 0, tags=tuple(sorted(tags)),
                    detail={'impl': _short(impl_obs, 1500), 'model': _short(ans, 1500), 'log': log})
+
+  def _reread_after_mutation(self, fd, path, ids, per, stored):
+    """Reads clients again (same reader, derived views, a fresh reader; get_client / get_clients /
+    clients / shuffled_clients) after the caller modified IN PLACE everything it had been handed
+    (directly, and inside a preprocess_client function). Every read must still equal what was written."""
+    import itertools
+    by_id = {cid: (obj, spec) for cid, obj, spec in stored}
+    ok_ids = [cid for cid, (_, ex) in zip(ids, per)
+              if ex[0] == 'ok' and cid in by_id and not bad_leaves(by_id[cid][1])]
+    if not ok_ids:
+      return []
+    # full passes only when every stored client is readable (a str feature makes clients() raise, as it must)
+    small = len(ids) <= 64 and all(ex[0] == 'ok' for _, ex in per)
+    if len(ok_ids) > 40:
+      step = len(ok_ids) // 38
+      sample = ok_ids[::step][:38] + [ok_ids[-1]]
+    else:
+      sample = list(ok_ids)
+    found = []
+
+    def mutate(ex):
+      for k in list(ex):
+        v = ex[k]
+        if isinstance(v, np.ndarray) and v.size:
+          try:
+            if v.dtype == object:
+              v.flat[0] = b'\xffEDITED-BY-CALLER'
+              v.flat[v.size - 1] = b''
+            else:
+              v.flat[0] = np.ones((), v.dtype) if not v.flat[0] else np.zeros((), v.dtype)
+          except (ValueError, TypeError):
+            pass                      # read-only buffers cannot be edited: fine
+      k0 = next(iter(ex))
+      ex[(k0 + '~renamed') if isinstance(k0, str) else (k0 + b'~renamed')] = ex.pop(k0)
+      ex['\x00added-by-caller'] = np.arange(len(next(iter(ex.values()))))   # consistent row count
+      if len(ex) > 3:
+        del ex[next(iter(ex))]
+      return ex
+
+    def judge(how, cid, ex):
+      if len(found) >= 4 or cid not in by_id or bad_leaves(by_id[cid][1]):
+        return
+      obj, spec = by_id[cid]
+      dd = deep_diff(obj, ex, spec)
+      if dd:
+        found.append(f'{how}: client {cid!r} no longer reads back as written after the caller edited, in place, '
+                     f'the examples a previous read had returned: {dd}')
+
+    def read_all(how, reader):
+      for cid in sample:
+        judge(f'{how}.get_client', cid, reader.get_client(cid).raw_examples)
+      for cid, ds in reader.get_clients(sample[:10]):
+        judge(f'{how}.get_clients', cid, ds.raw_examples)
+      if small:
+        for cid, ds in reader.clients():
+          judge(f'{how}.clients', cid, ds.raw_examples)
+        for cid, ds in itertools.islice(reader.shuffled_clients(buffer_size=3, seed=1), len(ids)):
+          judge(f'{how}.shuffled_clients', cid, ds.raw_examples)
+
+    def fresh():
+      return self.sq.SQLiteFederatedData.new(path)
+
+    # round A: edit what get_client returned
+    for cid in sample:
+      mutate(fd.get_client(cid).raw_examples)
+    read_all('same reader', fd)
+    read_all('slice view', fd.slice(start=min(sample)))
+    f2 = fresh()
+    try:
+      read_all('fresh reader', f2)
+      if small:
+        # round B: edit what a full pass of clients() / get_clients() returned
+        for _, ds in fd.clients():
+          mutate(ds.raw_examples)
+        for _, ds in f2.get_clients(sample):
+          mutate(ds.raw_examples)
+        read_all('same reader, 2nd pass', fd)
+        # round C: a client preprocessor that edits its argument in place, then plain reads
+        edited = fd.preprocess_client(lambda cid, ex: mutate(ex))
+        for _, ds in edited.clients():
+          ds.raw_examples            # pylint: disable=pointless-statement
+        for cid in sample:
+          edited.get_client(cid)
+        read_all('after an in-place preprocess_client pass', fd)
+        read_all('fresh reader, after all edits', f2)
+    finally:
+      f2._connection.close()   # pylint: disable=protected-access
+    return found
 
   # ---------------------------------------------------------------- pickle: save_state/load_state
   def _eval_state(self, case, ctx):
@@ -1303,7 +1434,8 @@ class C16(core.Property):
 
   def _eval_ckpt(self, case, ctx):
     import jax
-    algo, opt, shape, rounds, keep = case['algo'], case['opt'], case['shape'], case['rounds'], case['keep']
+    algo, opt, shape, keep = case['algo'], case['opt'], case['shape'], case['keep']
+    hist = case['hist'] if 'hist' in case else list(case['rounds'])
     try:
       base = self._make_state(algo, opt, shape)
     except InfraError:
@@ -1313,41 +1445,70 @@ class C16(core.Property):
     problems = []
     d = tempfile.mkdtemp(prefix='c16ck')
     try:
-      # save_state / load_state directly
+      # save_state / load_state directly, also onto a path that already holds another state
       p = os.path.join(d, 'plain_state')
-      self.ser.save_state(base, p)
-      dd = state_diff(base, self.ser.load_state(p))
-      if dd:
-        problems.append(f'load_state(save_state({algo} state)) differs: {dd}')
-      # checkpoints: increasing rounds, each with a distinguishable state
+      other = jax.tree_util.tree_map(lambda x: x + 5 if hasattr(x, 'dtype') and x.dtype.kind == 'f' else x, base)
+      for st in (other, base):
+        self.ser.save_state(st, p)
+        dd = state_diff(st, self.ser.load_state(p))
+        if dd:
+          problems.append(f'load_state(save_state({algo} state)) differs: {dd}')
+      # a history of checkpoints in one directory; every save has its own distinguishable state.
+      # Reference (independent of the code): files = round -> state of the LAST save under that round;
+      # after each save only the `keep` highest rounds remain.
       root = os.path.join(d, 'ckpts')
       os.makedirs(root)
       if self.ckpt.load_latest_checkpoint(root) is not None:
         problems.append('load_latest_checkpoint of an empty directory is not None')
-      for r in rounds:
-        st = jax.tree_util.tree_map(lambda x, r=r: x + r if hasattr(x, 'dtype') and x.dtype.kind == 'f' else x, base)
-        self.ckpt.save_checkpoint(root, st, r, keep)
+      files = {}
+      for step, r in enumerate(hist):
+        st = jax.tree_util.tree_map(
+            lambda x, step=step: x + (step + 1) * 8 if hasattr(x, 'dtype') and x.dtype.kind == 'f' else x, base)
+        if r is None:
+          self.ckpt.save_checkpoint(root, st, keep=keep)       # default round_num
+          r = 0
+        else:
+          self.ckpt.save_checkpoint(root, st, r, keep)
+        files[r] = (st, step)
+        for old_r in sorted(files)[:-keep]:
+          del files[old_r]
+        what = f'after save #{step} (round {r}) of history {hist} with keep={keep}'
+        names = sorted(os.listdir(root))
+        want = ['checkpoint_%08d' % x for x in sorted(files)]
+        if names != want:
+          problems.append(f'{what}: checkpoint files {names} != the {keep} highest rounds {want}')
+        top = max(files)
         got = self.ckpt.load_latest_checkpoint(root)
         if got is None:
-          problems.append(f'no checkpoint after save_checkpoint(round {r})')
-          continue
-        dd = state_diff(st, got[0])
-        if got[1] != r or dd:
-          problems.append(f'checkpoint of round {r} loads back as round {got[1]}' + (f' with {dd}' if dd else ''))
-      names = sorted(os.listdir(root))
-      want = ['checkpoint_%08d' % r for r in rounds[-keep:]]
-      if names != want:
-        problems.append(f'checkpoint files {names} != the {keep} most recent {want}')
+          problems.append(f'{what}: load_latest_checkpoint returned None')
+        else:
+          dd = state_diff(files[top][0], got[0])
+          if got[1] != top or dd:
+            problems.append(f'{what}: load_latest_checkpoint returned round {got[1]}'
+                            + (f' whose state is not the one last saved under round {top} (save #{files[top][1]}): {dd}' if dd else f', expected round {top}'))
+        for x, (sx, stepx) in sorted(files.items()):
+          fp = os.path.join(root, 'checkpoint_%08d' % x)
+          if os.path.exists(fp):
+            dd = state_diff(sx, self.ser.load_state(fp))
+            if dd:
+              problems.append(f'{what}: load_state({os.path.basename(fp)}) is not the state last saved under '
+                              f'round {x} (save #{stepx}): {dd}')
+        if len(problems) >= 3:
+          break
     except InfraError:
       raise
     except Exception as e:   # pylint: disable=broad-except
       problems.append(f'checkpoint round trip raised {type(e).__name__}: {e}')
     finally:
       shutil.rmtree(d, ignore_errors=True)
+    rs = [0 if r is None else r for r in hist]
+    shape_tag = ('increasing' if all(a < b for a, b in zip(rs, rs[1:])) else
+                 'repeats-a-round' if len(set(rs)) < len(rs) else 'non-monotone')
     return Outcome(oracle_fail='; '.join(problems[:3]) or None, key='C16/ckpt/other' if problems else None,
                    nontrivial=True, tags=('kind=ckpt', f'algo={algo}', f'opt={opt}', f'keep={keep}',
-                                          f'rounds={len(rounds)}'),
-                   detail={'algo': algo, 'opt': opt})
+                                          f'saves={len(hist)}', f'history={shape_tag}',
+                                          'default_round=' + str(any(r is None for r in hist))),
+                   detail={'algo': algo, 'opt': opt, 'hist': hist})
 
 
 def _short(v, n=400):
